@@ -101,6 +101,7 @@ func readOf(v ssa.Value) (a, b, n int64, ok bool) {
 func runC13(c *core.Ctx) core.Meta {
 	c.Load(instsPkg, driverPkg)
 	c.BuildSSA()
+	checkSymbolScansWhole(c)
 	lp := core.NewLocalProv(c)
 	pi := NewPkgInfo(c, instsPkg)
 
